@@ -78,7 +78,7 @@ def run(ctx):
         finally:
             S.close()
     # ---- generated
-    nbase = ctx.n(60, 24)
+    nbase = ctx.n(45, 24)
     per_base = ctx.n(2, 40)
     for _ in range(nbase):
         base, notes = TC.gen_base(ctx.rng, "C04")
